@@ -83,7 +83,8 @@ func Progs(rc *vk.Rec) {
 	case "c04":
 		nTotal = rc.N(640, 16000)
 		cEvery = 1
-		opts.SafeOnly = true
+		// every variant: an accepted near-miss on which the interpreter raises no
+		// event is as good a program as the safe form (those with events are excluded)
 		opts.MaxScens = 3
 	case "c05":
 		progsC05(rc, env)
@@ -193,26 +194,32 @@ func Progs(rc *vk.Rec) {
 	type extra struct {
 		o       wprog.GenOptions
 		alwaysC bool
+		fixed   *wprog.Case // a hand-written case instead of a generated one
 	}
 	var extras []extra
 	if mode != "c02" {
 		for _, f := range []string{"G-high-bits-zero", "G-sat-small", "G-refined-arg-result", "G-io-arg-only-in-builtin"} {
 			for k := 0; k < 3; k++ {
-				extras = append(extras, extra{wprog.GenOptions{Family: f, Variant: 0, MaxScens: 1}, true})
+				extras = append(extras, extra{o: wprog.GenOptions{Family: f, Variant: 0, MaxScens: 1}, alwaysC: true})
 			}
 		}
 	}
+	// hand-written programs (constructs no family emits: io_limit / io_bind,
+	// marks, history copies, statuses as values, nested public coroutines ...)
+	for _, hc := range wprog.HandCases() {
+		extras = append(extras, extra{alwaysC: mode != "c02", fixed: hc})
+	}
 	fams := wprog.Families()
 	for k := 0; k < 4*fams["R-signed"]; k++ { // each variant on several signed types
-		extras = append(extras, extra{wprog.GenOptions{Family: "R-signed", Variant: k % fams["R-signed"], MaxScens: 1, MaxCalls: 1 << 20}, mode != "c02"})
+		extras = append(extras, extra{o: wprog.GenOptions{Family: "R-signed", Variant: k % fams["R-signed"], MaxScens: 1, MaxCalls: 1 << 20}, alwaysC: mode != "c02"})
 	}
 	for _, f := range []string{"S-choose", "F-unify"} {
 		for v := 0; v < fams[f]; v++ {
-			extras = append(extras, extra{wprog.GenOptions{Family: f, Variant: v, MaxScens: 1, MaxCalls: 1 << 20}, false})
+			extras = append(extras, extra{o: wprog.GenOptions{Family: f, Variant: v, MaxScens: 1, MaxCalls: 1 << 20}, alwaysC: false})
 		}
 	}
 	for v := 0; v < wprog.KillVariants(); v++ {
-		extras = append(extras, extra{wprog.GenOptions{Family: "M-kill", Variant: v, MaxScens: 1, MaxCalls: 1 << 20}, false})
+		extras = append(extras, extra{o: wprog.GenOptions{Family: "M-kill", Variant: v, MaxScens: 1, MaxCalls: 1 << 20}, alwaysC: false})
 	}
 	for idx := int64(0); idx < int64(nTotal)+int64(len(extras)); idx++ {
 		if rc.SkipCase(phase, idx) {
@@ -220,16 +227,20 @@ func Progs(rc *vk.Rec) {
 		}
 		o := opts
 		alwaysC := false
+		var fixed *wprog.Case
 		if idx >= int64(nTotal) {
 			k := int(idx - int64(nTotal))
 			if rc.Only < 0 && k%rc.NShards != rc.Shard {
 				continue
 			}
-			o, alwaysC = extras[k].o, extras[k].alwaysC
+			o, alwaysC, fixed = extras[k].o, extras[k].alwaysC, extras[k].fixed
 		}
 		rc.Mark(phase, idx)
 		r := rc.RNG(phase, idx)
-		c := wprog.GenCase(r, o)
+		c := fixed
+		if c == nil {
+			c = wprog.GenCase(r, o)
+		}
 		if c == nil {
 			continue
 		}
